@@ -32,6 +32,8 @@ CFGS = [
     dict(name='level+rule', H=3600, R=1800, dur=2 * 3600, controls=[dict(kind='level', target='P2', rel='gt', value=0), dict(kind='rule', target='VT', rel='ge', then=0)]),
     dict(name='pump-power', H=3600, dur=3600, controls=[dict(kind='power', target='PP', value='sym')]),
     dict(name='pump-speed', H=3600, dur=3600, controls=[dict(kind='base_speed', target='PP', value='sym')]),
+    dict(name='dead-end-closed', H=3600, dur=2 * 3600, dead_end=True, controls=[dict(kind='status', target='P4', value=0)]),
+    dict(name='report-finer-than-H', H=3600, report=1200, dur=3600, controls=[dict(kind='status', target='P2', value=0)]),
     dict(name='tank-leak', H=3600, dur=3600, controls=[dict(kind='leak', target='T'), dict(kind='status', target='P3', value=0)]),
 ]
 
@@ -65,6 +67,8 @@ def check_cfg(rep, cfg):
                 r1 = runkit.snapshot(plane.run(wn))
                 after = model_dict(wn)
                 wn.reset_initial_values()
+                r2s = runkit.snapshot(ctrlplane.rerun_same_simulator(plane))      # the same WNTRSimulator object, as in the documentation
+                wn.reset_initial_values()
                 r2 = runkit.snapshot(plane.run(wn))
                 # a run cut short, then reset, then the full run again
                 wn.reset_initial_values()
@@ -74,7 +78,7 @@ def check_cfg(rep, cfg):
                 wn.reset_initial_values()
                 r3 = runkit.snapshot(plane.run(wn))
                 r4 = runkit.snapshot(plane.run(twin))
-                return V, before, after, r1, r2, r3, r4
+                return V, before, after, r1, r2, r3, r4, r2s
             n = 0
             bad = set()
             for path in symx.explore(harness, max_paths=5000, timeout_s=400 if rep.tier == 'quick' else 2400):
@@ -86,9 +90,9 @@ def check_cfg(rep, cfg):
                         m_ = symx.satisfiable(cons)
                         rep.counterexample('run/%s/raised' % tag, dict(_inputs(m_.model), cfg=cfg, why='%s: %s' % (type(path.exc).__name__, path.exc)), 'run')
                     continue
-                V, before, after, r1, r2, r3, r4 = path.value
+                V, before, after, r1, r2, r3, r4, r2s = path.value
                 wit = lambda mdl, V=V: V.witness(mdl, cfg=cfg)
-                for name, a, b in (('definition', before, after), ('reset', r1, r2), ('reset-after-partial-run', r1, r3), ('copy', r1, r4)):
+                for name, a, b in (('definition', before, after), ('reset', r1, r2), ('reset-same-simulator', r1, r2s), ('reset-after-partial-run', r1, r3), ('copy', r1, r4)):
                     if name in bad:
                         continue
                     mism, claims = compare(a, b)
@@ -143,6 +147,17 @@ def replay_run(i):
     if mism and what in (None, 'definition'):
         return 'the model dictionary changed during the run: ' + '; '.join(mism[:3])
     tol = (1e-6, 1e-8)
+    if what in (None, 'reset-same-simulator'):
+        w2 = runkit.build(V, cfg)
+        with warnings.catch_warnings():
+            warnings.simplefilter('ignore')
+            sim = wntr.sim.WNTRSimulator(w2)
+            ra = runkit.frames_snapshot(sim.run_sim())
+            w2.reset_initial_values()
+            rb = runkit.frames_snapshot(sim.run_sim())
+        mism, _ = compare(ra, rb, tol=tol)
+        if mism:
+            return 'run, reset_initial_values, run again on the same WNTRSimulator object: the rerun differs: ' + '; '.join(mism[:3])
     wn.reset_initial_values()
     r2 = run(wn)
     mism, _ = compare(r1, r2, tol=tol)
